@@ -33,7 +33,7 @@ ID = "C37"
 LEVEL = "exploration"
 TECHNIQUE = ("runtime monitoring: history-checker oracle over generated environment/profile operation sequences on the real "
              "ConfigManager/EnvService/AuthService over SQLite")
-LEVEL_TEXT = ("Randomised model-based operation sequences (<=25/40 ops, 3 environments, 3 profile names, same names across "
+LEVEL_TEXT = ("Randomised model-based operation sequences (a quarter opened by a directed dangling-pointer prefix; <=25/40 ops, 3 environments, 3 profile names, same names across "
               "environments, current and non-current creation, process re-opens) with the active-pointer invariant evaluated after "
               "every operation; right level because the property quantifies over histories and the pointer is only wrong after "
               "specific sequences.")
@@ -115,9 +115,34 @@ def gen_op(rnd):
     return op
 
 
+def gen_prefix(rnd):
+    """Directed openings (then random ops follow): the active-profile *name* is left dangling in a non-default environment that
+    has no profile rows, while the default environment holds a same-named profile that was never picked there; then the current
+    environment is deleted / switched.  Random generation reaches this rarely (needs 4-6 specific ops in order)."""
+    e = rnd.randrange(1, len(ENVS))
+    n = rnd.randrange(len(TOKENS))
+    m = rnd.choice([i for i in range(len(TOKENS)) if i != n])
+    other = rnd.choice([0, 0, rnd.randrange(len(ENVS))])
+    t = rnd.randrange(3)
+    ops = [{"op": "env_add", "env": e, "auth": rnd.random() < 0.5}, {"op": "prof_create_raw", "env": other, "name": n}]
+    if t == 0:
+        ops.append({"op": "prof_select", "name": n, "raw": True})
+    elif t == 1:
+        ops += [{"op": "prof_create", "name": n}, {"op": "prof_update", "name": n, "what": "rename", "to": m},
+                {"op": "prof_delete", "name": m}]
+    else:
+        ops += [{"op": "prof_create", "name": n}, {"op": "prof_delete_raw", "env": e, "name": n}]
+    if rnd.random() < 0.7:
+        ops.append({"op": "env_delete", "env": e, "variant": None})
+    else:
+        ops.append({"op": "env_switch", "env": other, "cli": rnd.random() < 0.3, "variant": None})
+    return ops
+
+
 def gen_case(rnd, maxlen):
     n = rnd.randint(3, maxlen)
-    return {"ops": [gen_op(rnd) for _ in range(n)]}
+    pre = gen_prefix(rnd) if rnd.random() < 0.25 else []
+    return {"ops": pre + [gen_op(rnd) for _ in range(max(1, n - len(pre)))]}
 
 
 def _spell(url, variant):
